@@ -37,6 +37,13 @@ theorem model_meets_spec (q : Nat) (u t : Leg) : spec q u t (exchange q u t) = t
     · simp [spec, exchange]
     · simp [spec, exchange]
 
+/-- ★ a run of truncated replies: every caller gets the (non-truncated) TCP reply -/
+theorem seq_all_tcp (k : Nat) : ∀ l ∈ seqModel k, ∃ tag, l = .msg tag false := by
+  intro l hl
+  simp only [seqModel, List.mem_map, List.mem_range] at hl
+  obtain ⟨i, _, rfl⟩ := hl
+  exact ⟨2000 + i, rfl⟩
+
 /-- the specification is not vacuous: it rejects returning the truncated message. -/
 example : spec 7 (.msg 1 true) (.msg 2 false) ⟨.msg 1 true, 0, none⟩ = false := by decide
 example : spec 7 (.msg 1 true) (.msg 2 false) ⟨.msg 2 false, 1, some 7⟩ = true := by decide
